@@ -209,6 +209,19 @@ def case(rng):
         a = gen_list(rng, 4, 2, improper=0.2)
         b = a if rng.random() < 0.5 else gen_list(rng, 4, 2, improper=0.2)
         return ["(equal? %s %s)" % (q(a), q(b))], ["V " + canon(equal(a, b))]
+    if p == "apply" and rng.random() < 0.5:
+        # apply spreads its last argument: the procedure receives exactly that many arguments - car / cdr / cons / pair? / null? /
+        # eqv? called with a count they do not admit is an error, never a value; with the right count the value of the direct call
+        target, ar = rng.choice([("car", 1), ("cdr", 1), ("cons", 2), ("pair?", 1), ("null?", 1), ("eqv?", 2), ("list-tail", 2), ("cadr", 1)])
+        n = rng.choice([ar, ar, ar + 1, ar - 1, ar + 2])
+        args = [rng.choice(["'(1 2)", "'(3 4 5)", "0", "1"]) for _ in range(max(n, 0))]
+        cut = rng.randrange(0, len(args) + 1)
+        form = "(apply %s %s (list %s))" % (target, " ".join(args[:cut]), " ".join(args[cut:]))
+        if rng.random() < 0.3:
+            form = "(apply apply (list %s (list %s)))" % (target, " ".join(args))
+        if n != ar:
+            return [form], ["E arity"]
+        return [form, "(%s %s)" % (target, " ".join(args))], ["SAME"]
     if p == "apply":
         l = [rng.randrange(0, 9) for _ in range(rng.randrange(0, 5))]
         pre = [rng.randrange(0, 9) for _ in range(rng.randrange(0, 3))]
@@ -252,6 +265,13 @@ def run(rep, tier, rng):
         procs[name] = procs.get(name, 0) + 1
         if len(rep.cov["samples"]) < 6 and cid.endswith("1"):
             rep.sample({"form": forms[-1], "implementation": got[-1]})
+        if want == ["SAME"]:
+            # the apply form and the direct call must agree (value or error kind)
+            k0 = lambda x: x if not x.startswith("E ") else "E " + x.split(" ")[1]
+            if k0(got[-2]) != k0(got[-1]):
+                rep.violation({"what": "a list-library procedure does not compute what its definition says", "forms": forms,
+                               "problem": "(apply f args) and the direct call (f . args) differ: %s vs %s" % (got[-2], got[-1])})
+            continue
         wres = [w for w in want if isinstance(w, str)]
         wt = next((w[1] for w in want if isinstance(w, tuple)), None)
         bad = None
